@@ -119,7 +119,14 @@ class HeapMixin:
                 return self.class_const(c, attr)
             m = self.repo.lookup_method(ci, attr)
             if m is not None:
-                return VFunc(m[0], None, m[1], m[1].mod.relpath, attr)
+                # a collaborator the contract declares havocked, addressed through its class (`Cls.from_dict(x)`)
+                spec = self.contract.callbacks.get(f"{ci.name}.{attr}") if getattr(self, "contract", None) is not None else None
+                if spec is not None:
+                    return VCallback(f"{ci.name}.{attr}", spec)
+                fn_ = VFunc(m[0], None, m[1], m[1].mod.relpath, attr)
+                if any(isinstance(d_, ast.Name) and d_.id == "classmethod" for d_ in m[0].decorator_list):
+                    return VPartial(fn_, v)             # Cls.method(...) on a classmethod: cls is bound, as in CPython
+                return fn_
             if attr == "__name__":
                 return VStr(ci.name)
             raise E.Unsupported(f"class attr {ci.name}.{attr}")
